@@ -38,7 +38,9 @@ class CHECK(FloCheck):
     LEVEL_TEXT = ("Proved for every program, semantics and level: C10_start_conditions, C10_first_run_stays (outline cut at "
                   "the main frame, truthy), C10_first_run_completes (exited at once, not cut, falsy), "
                   "C10_runs_irrespective_of_needs, C10_run_continues, C10_run_completes (exit, outline restored by "
-                  "assignment, nothing entered), C10_recur_over_actives, C10_deactivize, C10_main_exit_exits_aux (WF). "
+                  "assignment, nothing entered), C10_recur_over_actives, C10_deactivize, C10_main_exit_exits_aux (WF), "
+                  "C10_not_owner_noop (fix D3b: an auxiliary running for another frame is neither run nor exited by this "
+                  "clause), C10_running_is_owned (WF: the owner test never fails for the clause that started it). "
                   "PARTIAL: C10_suspended_frames needs the C05 invariant; C10_counterexample_D3 is the exception.")
     LEVEL_NOTE = ("Trusted: Lean kernel; axioms propext, Classical.choice, Quot.sound; transcription of Suspender.action "
                   "validated by the correspondence.")
@@ -57,7 +59,7 @@ class CHECK(FloCheck):
     def region(self, finding, case):
         reply = core.Driver("flo").run([floeng.encode(case["prog"])])[0]
         flags = [l for l in reply.split("|") if l.startswith("G ")]
-        want = {"D3": "overlap=1", "D3b": "shared=1", "D3c": "left=1", "D3d": "shared=1"}.get(finding.get("id"))
+        want = {"D3": "overlap=1", "D3c": "left=1", "D3e": "both=1"}.get(finding.get("id"))
         return bool(flags) and want is not None and want in flags[0]
 
     def oracle(self, case, out):
@@ -82,7 +84,15 @@ class CHECK(FloCheck):
                                  if jt["t"] == "act" and jt["ctx"] == "precur" and jt["act"]["k"] == "rec"]
                         clauses.append((g, it["aux"], it["needs"], later))
                 g += 1
-        clauses = [c for c in clauses if uses[c[1]] == 1]        # shared auxiliaries are another finding's business
+        # an auxiliary named by several clauses is judged through its owner (`main`), see rules below; a clause whose
+        # auxiliary is also a plain auxiliary of the same frame is ambiguous in the trace (finding D3e, C05): skipped
+        plain_of = {}
+        g = 0
+        for fr in prog["framers"]:
+            for f in fr["frames"]:
+                plain_of[g] = {it["aux"] for it in f["items"] if it["t"] == "aux" and not it["needs"]}
+                g += 1
+        clauses = [c for c in clauses if c[1] not in plain_of[c[0]]]
         clock = clock_only_shares(prog) if case.get("gen") == "susp" else set()    # framer 0 is a plain clock there
         first_frames = {F.idx: [x.gid for x in F.first.outline] for F in m.framers}
         events, prev = [], None
@@ -113,7 +123,8 @@ class CHECK(FloCheck):
                     xin = [e for e in events if owner[e[0]] == x]
                     x_entered = any(e[1] == "enter" and e[0] in first_frames[x] for e in xin)
                     # (a) started only when its needs hold
-                    if x_entered and vals is not None:
+                    only_clause = sum(1 for c in clauses if c[0] == mf and c[1] == x) == 1
+                    if x_entered and vals is not None and only_clause and (uses[x] == 1 or snap[x]["main"] == mf):
                         for nd in needs:
                             if nd["k"] == "cd" and nd["sh"] in clock and not holds(nd, vals):
                                 return "%s: conditional aux m%d of f%d was entered although `%s` is false (store %s)" % (
